@@ -607,8 +607,14 @@ class Conv:
             return self.call(n)
         if isinstance(n, ast.Compare):
             args = [self.expr(n.left)] + [self.expr(c) for c in n.comparators]
-            return t.atom('cmp', tuple(args),
-                          extra=tuple(type(o).__name__ for o in n.ops))
+            ops = tuple(type(o).__name__ for o in n.ops)
+            if len(ops) == 1 and ops[0] in ('Gt', 'GtE'):
+                # a > b is b < a: one canonical spelling
+                args = [args[1], args[0]]
+                ops = ({'Gt': 'Lt', 'GtE': 'LtE'}[ops[0]],)
+            elif len(ops) == 1 and ops[0] in ('Eq', 'NotEq'):
+                args = sorted(args, key=lambda r: t.fmt(r))
+            return t.atom('cmp', tuple(args), extra=ops)
         if isinstance(n, ast.BoolOp):
             return t.atom('bool', tuple(self.expr(v) for v in n.values),
                           extra=type(n.op).__name__)
